@@ -215,7 +215,14 @@ func rssBytes(pid int) int64 {
 func workerCmd(bin string, a *WorkerArgs) *exec.Cmd {
 	b, _ := json.Marshal(a)
 	cmd := exec.Command(bin, "-worker", string(b))
-	cmd.Env = append(os.Environ(), "GORACE=halt_on_error=1 exitcode=66 history_size=2")
+	// One P per worker: every engine executes one goroutine at a time (multistate parks all tasks but one), so
+	// more Ps only add garbage-collector contention between workers; and with a single P the process-level
+	// pools of the code under test (sync.Pool is per P) behave the same way when a run sequence is replayed.
+	gmp := "GOMAXPROCS=1"
+	if v := os.Getenv("VERIF_WORKER_GOMAXPROCS"); v != "" {
+		gmp = "GOMAXPROCS=" + v
+	}
+	cmd.Env = append(os.Environ(), "GORACE=halt_on_error=1 exitcode=66 history_size=2", gmp)
 	cmd.SysProcAttr = &syscall.SysProcAttr{Pdeathsig: syscall.SIGKILL}
 	return cmd
 }
@@ -527,7 +534,13 @@ func Supervise(spec *PropertySpec, tier string, verifSeed uint64, budgetOverride
 				// the single run is clean in a fresh process: does the violation need what the earlier runs of the
 				// same worker process left behind in process-level state of the code under test?
 				rf.History = &HistoryReplay{Idx: violIdx, Count: violCount, Runs: (viol.Run-int64(violIdx))/int64(violCount) + 1}
-				code, m, msg = ReplayOnce(spec, rf)
+				for try := 0; try < 3; try++ {
+					// the pools involved (sync.Pool) are emptied by the garbage collector at moments the
+					// simulator does not control: give the sequence more than one chance
+					if code, m, msg = ReplayOnce(spec, rf); code == 1 && m != nil {
+						break
+					}
+				}
 				if code == 1 && m != nil {
 					ok = true
 					if m.Class != rf.Violation.Class {
